@@ -64,6 +64,40 @@ def legacy_streams(rng, n):
 REL: dict = {}
 
 
+def strconfig_part(ctx):
+    """plumbing of the coercion switches through Gateway.reconfigure / Channel.reconfigure / channel creation: every operation
+    sequence of spec/StrConfig.tla (enumerated by TLC) replayed on the real gateway pair in the simulator; a peer speaking the
+    Python-2 dialect is emulated by raw CHANNEL_DATA frames with legacy opcodes; TLC judges what receive() returned against the
+    reference decoder under the pair the model says is in effect"""
+    from mbt import batch, tlc
+    from sim import gwrun
+
+    depth = "3" if ctx.quick else "4"
+    r = tlc.run("StrConfigCases", "Batch.cfg", scratch=ctx.scratch, env={"WHAT": "enum", "DEPTH": depth}, workers=1, timeout=1800)
+    vals = tlc.printed_values(r.out, "words")
+    if not vals or not vals[0]:
+        ctx.machinery("StrConfigCases enumerated nothing:\n" + r.out[-1500:])
+    words = sorted(vals[0], key=lambda w: (len(w), repr(w)))
+    prefixes = {w[:i] for w in words for i in range(len(w))}
+    maximal = [w for w in words if w not in prefixes]
+    res = gwrun.run_chanlife([[list(o) for o in w] for w in maximal], module="sim.strconfig")
+    gwrun.close_pool()
+    for x in res:
+        if "harness_error" in x or x.get("error") or len(x.get("obs", [])) != len(x["ops"]):
+            ctx.machinery(f"StrConfig replay failed on {x['ops']}: {x.get('harness_error') or x.get('error') or x.get('outcome')}")
+    verdicts = batch.judge("StrConfigCases", [{"ops": x["ops"], "obs": x["obs"]} for x in res], ctx.scratch, extra_env={"WHAT": "judge", "DEPTH": "0"})
+    hist = {}
+    for x, vd in zip(res, verdicts):
+        hist[vd] = hist.get(vd, 0) + 1
+        if vd == "ok":
+            continue
+        if vd.startswith("MODEL."):
+            ctx.machinery(f"StrConfig replay: {vd} on {x['ops']}")
+        ctx.violation(f"{vd}: operations {x['ops']}; received {x['obs']}", x)
+    return {"sequences_enumerated": len(words), "maximal_sequences_replayed": len(maximal), "depth": int(depth),
+            "probes_judged": sum(1 for x in res for o in x["ops"] if o[0] == "probe"), "verdict_histogram": hist}
+
+
 def release_cross(ctx, models, gen, loads):
     vals = (models[::3] + gen[:300]) if ctx.quick else (models + gen)
     lds = loads[:600] if ctx.quick else loads
@@ -123,6 +157,7 @@ def run(ctx):
     # shipped"); then each side loads what the other side wrote.
     rel = release_cross(ctx, models, gen, loads)
     cases += rel
+    strcfg = strconfig_part(ctx)
     verdicts = sc.judge(ctx, cases)
     nontrivial = set()
     for c, vd in zip(cases, verdicts):
@@ -149,6 +184,7 @@ def run(ctx):
                 "non-trivial = encoding longer than one leaf / any legacy stream",
         "samples": [sc.short(c, 260) for c in cases[:1] + [c for c in cases if c["k"] == "load"][:3]],
         "interpreters": per_interp, "legacy_load_cases": nload,
+        "strconfig_plumbing": strcfg,
         "release_cross": {"release": REL.get("version"), "release_cases_vs_reference": sum(1 for c in rel if c.get("side") == "release"),
                           "tree_loads_release_bytes": sum(1 for c in rel if c.get("side") == "tree<-release"),
                           "release_loads_tree_bytes": sum(1 for c in rel if c.get("from") == "tree")},
